@@ -109,7 +109,7 @@ func runC13(a *A) {
 			{"stream", "Stream", "RegisterFilter", "WHERE"}, {"stream", "DataProcessor", "applyHavingWithCondition", "HAVING"},
 		} {
 			fn := a.Method(site.rel, site.typ, site.m)
-			calls := callsTo(fn, ctor)
+			calls := callsToDeep(fn, ctor)
 			if len(calls) == 0 {
 				a.Bad(site.kind+"#routing", fn.Pos(), "%s does not compile its predicate through NewExprCondition", fname(fn))
 				continue
